@@ -630,6 +630,16 @@ def run_case(prop, seed, case):
             if users and info['children'].get(d):
                 c = rng.choice(info['children'][d])[0]
                 do(['setname', str(c), netgen.tok_of_s(w.objs[rng.choice(users)].name + '/q')])
+        if prop == 'C09' and len(info['layers']) >= 2:
+            # a child of the top cell that instantiates a leaf cell has no name: flatten's `e.name = e.name` must
+            # leave it unnamed and go on (below the top level an unnamed element makes flatten raise TypeError).
+            # Own PRNG so that the other choices of the case stay what they were.
+            rng_u = random.Random('%d/%s/%d/unnamed' % (seed, prop, case))
+            if rng_u.random() < 0.3:
+                leafs = set(info['layers'][0])
+                cands = [x for (x, ref) in info['children'].get(info['top_def'], []) if ref in leafs and w.objs[x].name is not None]
+                if cands:
+                    do(['setname', str(rng_u.choice(cands)), '~'])
         before = elab.elaborate(n)
         out = do(['flatten', str(nl), FUEL])
         if out != 'ok':
@@ -641,7 +651,10 @@ def run_case(prop, seed, case):
                 # history after: a cell that was a leaf (a black box) is filled in with an instance of another
                 # leaf cell, so it is no longer a leaf, and the same netlist is flattened again - anything the
                 # transformation remembers about definitions between calls shows here
-                used = [d for d in leaves if any(ref == d for kids in info['children'].values() for (_x, ref) in kids)]
+                # (not a cell instantiated by an unnamed instance: a hierarchical instance without a name makes
+                #  flatten raise TypeError on `None + "/"`, reported separately)
+                used = [d for d in leaves if any(ref == d for kids in info['children'].values() for (_x, ref) in kids)
+                        and not any(ref == d and w.objs[_x].name is None for kids in info['children'].values() for (_x, ref) in kids)]
                 if used:
                     d = rng.choice(used)
                     other = rng.choice([x for x in leaves if x != d])
@@ -788,7 +801,7 @@ def run(prop, tier, seed, replay):
                                'step': dis[0], 'op': ' '.join(res['ops'][dis[0]]) if dis[0] < len(res['ops']) else None,
                                'first_difference': dis[1], 'ops': [' '.join(o) for o in res['ops']]}, found_input=False)
     # extraction + driver glue cross-checked against the kernel's evaluator on an evenly spread sample of the same cases
-    want = XCHECK[tier]
+    want = XCHECK[tier] if not (prop == 'C09' and tier == 'quick') else 16   # flatten histories are the slowest to evaluate inside coqc
     xc_sample = [r for r in results if r['ops']][::max(1, len(results) // want)][:want]
     xc_res = coq_eval.check_digests('xform', [r['ops'] for r in xc_sample],
                                     weights=[len(r['dumps'][-1].split(' | ')) ** 2 if r['dumps'] else 1 for r in xc_sample])
